@@ -80,7 +80,86 @@ func substTokens(body string, formals, actuals []string) string {
 	return b.String()
 }
 
+// foldConstArith folds (+ k1 k2) and (- k1 k2) over non-negative numerals (to a fixpoint), so that the recursion counter
+// of an instance such as slashKeep(l, (- 24 1)) is again a numeral.
+func foldConstArith(s string) string {
+	for {
+		changed := false
+		var b strings.Builder
+		i := 0
+		for i < len(s) {
+			if s[i] == '(' && i+2 < len(s) && (s[i+1] == '+' || s[i+1] == '-') && s[i+2] == ' ' {
+				// try to parse "(op d1 d2)"
+				j := i + 3
+				k := j
+				for k < len(s) && s[k] >= '0' && s[k] <= '9' {
+					k++
+				}
+				if k > j && k < len(s) && s[k] == ' ' {
+					l := k + 1
+					m := l
+					for m < len(s) && s[m] >= '0' && s[m] <= '9' {
+						m++
+					}
+					if m > l && m < len(s) && s[m] == ')' && k-j < 18 && m-l < 18 {
+						var a, c int64
+						for _, ch := range s[j:k] {
+							a = a*10 + int64(ch-'0')
+						}
+						for _, ch := range s[l:m] {
+							c = c*10 + int64(ch-'0')
+						}
+						r := a + c
+						if s[i+1] == '-' {
+							r = a - c
+						}
+						if r >= 0 {
+							b.WriteString(strconvItoa(r))
+						} else {
+							b.WriteString("(- " + strconvItoa(-r) + ")")
+						}
+						i = m + 1
+						changed = true
+						continue
+					}
+				}
+			}
+			b.WriteByte(s[i])
+			i++
+		}
+		s = b.String()
+		if !changed {
+			return s
+		}
+	}
+}
+
+func strconvItoa(n int64) string {
+	if n == 0 {
+		return "0"
+	}
+	var d []byte
+	for n > 0 {
+		d = append([]byte{byte('0' + n%10)}, d...)
+		n /= 10
+	}
+	return string(d)
+}
+
+func hasNumeralArg(args []string) bool {
+	for _, a := range args {
+		if a != "" && isNumLit(a) {
+			return true
+		}
+	}
+	return false
+}
+
+const unfoldDepthConst = 70
+
 // unfoldInstances returns the ground unfolding equations for the recursive spec applications occurring in text.
+// Applications whose recursion counter is a numeral (a bound known at verification time, e.g. the 24-block absence
+// window) are unfolded all the way down; symbolic ones to depth unfoldDepth.
 func (c *Ctx) unfoldInstances(text string) []string {
 	if len(c.recSpecs) == 0 {
 		return nil
@@ -88,11 +167,14 @@ func (c *Ctx) unfoldInstances(text string) []string {
 	var out []string
 	seen := map[string]bool{}
 	frontier := text
-	for d := 0; d < unfoldDepth; d++ {
+	for d := 0; d < unfoldDepthConst; d++ {
 		var next strings.Builder
 		for fn, rs := range c.recSpecs {
 			for _, args := range findApps(frontier, fn) {
 				if len(args) != len(rs.params) {
+					continue
+				}
+				if d >= unfoldDepth && !hasNumeralArg(args) {
 					continue
 				}
 				app := "(" + fn + " " + strings.Join(args, " ") + ")"
@@ -100,7 +182,7 @@ func (c *Ctx) unfoldInstances(text string) []string {
 					continue
 				}
 				seen[app] = true
-				inst := substTokens(rs.body, rs.params, args)
+				inst := foldConstArith(substTokens(rs.body, rs.params, args))
 				out = append(out, "(= "+app+" "+inst+")")
 				next.WriteString(inst)
 				next.WriteByte('\n')
